@@ -336,7 +336,14 @@ func NamedKey(seed int64, name string) *ecdsa.PrivateKey {
 // SignRSDet signs SHA-256(msg) with a nonce derived from (key, msg, tag): same inputs, same 64 bytes.
 func SignRSDet(k *ecdsa.PrivateKey, msg []byte, tag string) []byte {
 	z := sha256.Sum256(msg)
-	return signDigestDet(k, z[:], tag)
+	return signDigestDet(k, z[:], tag, "")
+}
+
+// SignRSDetShape is SignRSDet with a constraint on the raw scalars: "shortR" / "shortS" give a scalar whose first byte is zero and
+// whose second byte has its top bit clear (its minimal DER INTEGER is a byte shorter than usual); anything else is unconstrained.
+func SignRSDetShape(k *ecdsa.PrivateKey, msg []byte, tag, shape string) []byte {
+	z := sha256.Sum256(msg)
+	return signDigestDet(k, z[:], tag, shape)
 }
 
 // detSigner makes certificates and CRLs a function of their content: two realisations with one seed carry
@@ -345,11 +352,11 @@ type detSigner struct{ k *ecdsa.PrivateKey }
 
 func (d detSigner) Public() crypto.PublicKey { return &d.k.PublicKey }
 func (d detSigner) Sign(_ io.Reader, digest []byte, _ crypto.SignerOpts) ([]byte, error) {
-	rs := signDigestDet(d.k, digest, "x509")
+	rs := signDigestDet(d.k, digest, "x509", "")
 	return asn1.Marshal(struct{ R, S *big.Int }{new(big.Int).SetBytes(rs[:32]), new(big.Int).SetBytes(rs[32:])})
 }
 
-func signDigestDet(k *ecdsa.PrivateKey, z []byte, tag string) []byte {
+func signDigestDet(k *ecdsa.PrivateKey, z []byte, tag string, shape string) []byte {
 	curve := elliptic.P256()
 	n := curve.Params().N
 	e := new(big.Int).SetBytes(z)
@@ -373,6 +380,9 @@ func signDigestDet(k *ecdsa.PrivateKey, z []byte, tag string) []byte {
 		out := make([]byte, 64)
 		r.FillBytes(out[:32])
 		s.FillBytes(out[32:])
+		if (shape == "shortR" && !(out[0] == 0 && out[1] < 0x80)) || (shape == "shortS" && !(out[32] == 0 && out[33] < 0x80)) {
+			continue
+		}
 		return out
 	}
 }
